@@ -131,7 +131,7 @@ Theorem C16_toFlags_tests :
   flag_on (toFlags o) NF_WRITE_REQUIRE = toFlags_opts_WriteRequireField o /\
   flag_on (toFlags o) NF_NO_BASE64 = toFlags_opts_NoBase64Binary o /\
   flag_on (toFlags o) NF_WRITE_OPTIONAL = toFlags_opts_WriteOptionalField o /\
-  flag_on (toFlags o) NF_TRACE_BACK = toFlags_opts_ReadHttpValueFallback o.
+  flag_on (toFlags o) NF_TRACE_BACK = (toFlags_opts_ReadHttpValueFallback o || (toFlags_opts_EnableHttpMapping o && toFlags_opts_TracebackRequredOrRootFields o)).
 Proof. exact toFlags_tests. Qed.
 Print Assumptions C16_toFlags_tests.
 
@@ -228,3 +228,101 @@ Theorem C16_WriteEmpty_source_layers :
   Gen_thriftends.BinaryProtocol_WriteListEnd = 0 /\ Gen_thriftends.BinaryProtocol_WriteMapEnd = 0.
 Proof. exact GenThriftemptyProofs.WriteEmpty_calls_layered. Qed.
 Print Assumptions C16_WriteEmpty_source_layers.
+
+(* ================================================================== (G) cutting: thrift/utils.go CheckRequires from the source *)
+(* the hand mirror check_requires_decision (used by check 1604 and by the cutting model's [owed]) is the generated block *)
+Theorem C16_CheckRequires_source_is_mirror :
+  forall wd f i v j, (f_req f = 0 \/ f_req f = 1 \/ f_req f = 2) ->
+  CheckRequires_marked wd i v j (ck_f f) = marked_result (blk_id i j) v (check_requires_decision wd f).
+Proof. exact CheckRequires_marked_is_decision. Qed.
+Print Assumptions C16_CheckRequires_source_is_mirror.
+
+(* the END-TO-END truth table with the per-bit decision READ OFF THE GENERATED HandleRequires block (no hand mirror between the
+   source text and the theorem): source_decision decodes what the block does (return with the missing-required error / continue /
+   fall through to the handler) *)
+Definition source_decision (p : popts) (w : wopts) (f : fld) : action :=
+  let '(out, _, _) := HandleRequires_marked (w_require w) (w_default w) (w_optional w) 0 0 0 (hr_f p f) in
+  if out =? Out_return then AMissing else if out =? Out_continue then ASkip else write_action p f.
+
+Lemma source_decision_is_mirror p w f : (f_req f = 0 \/ f_req f = 1 \/ f_req f = 2) -> source_decision p w f = handle_requires_decision p w f.
+Proof.
+  intros H. unfold source_decision. rewrite HandleRequires_marked_is_decision by exact H.
+  unfold marked_result. unfold handle_requires_decision, write_action.
+  destruct ((f_req f =? 1) && negb (w_require w)); [reflexivity|].
+  destruct (((f_req f =? 0) && negb (w_default w)) || ((f_req f =? 2) && negb (w_optional w) && negb (parsed_default p f))); [reflexivity|].
+  destruct (parsed_default p f); reflexivity.
+Qed.
+
+Theorem C16_requires_truth_table_source :
+  forall p w fs present pool,
+  NoDup (map f_id fs) -> (forall f, In f fs -> 0 <= f_id f) ->
+  (forall f, In f fs -> f_req f = 0 \/ f_req f = 1 \/ f_req f = 2) -> (forall i, In i present -> 0 <= i) ->
+  let R := run_struct (source_decision p w) p fs present pool in
+  R <> HNil /\
+  (R = HMissing <-> exists f, In f fs /\ ~ In (f_id f) present /\ rule p w f = AMissing) /\
+  (forall l, R = HOk l ->
+     (forall f a, In f fs -> (In (f_id f, a) l <-> ~ In (f_id f) present /\ rule p w f = a /\ is_write a)) /\
+     (forall id a, In (id, a) l -> exists f, In f fs /\ f_id f = id)).
+Proof.
+  intros p w fs present pool Hnd Hpos Hreq Hpres.
+  assert (E : run_struct (source_decision p w) p fs present pool = run_struct (handle_requires_decision p w) p fs present pool).
+  { unfold run_struct. apply handle_ids_ext. intros id f _ Hf. apply source_decision_is_mirror. apply Hreq.
+    apply find_fld16_some in Hf. apply Hf. }
+  cbv zeta. rewrite E. exact (requires_truth_table p w fs present pool Hnd Hpos Hreq Hpres).
+Qed.
+Print Assumptions C16_requires_truth_table_source.
+
+(* HAND MIRRORS THAT REMAIN (no Go text the translator accepts, or not Go at all), tied by the correspondence checks only:
+     - RequiresBitmap.Set / IsSet / CopyTo / malloc (unsafe pointer arithmetic on the slice header) : Requireness.bm_set / bm_is_set /
+       bm_copy_to / bm_grow - checks 1601-1604 with ids up to 4000 and pool reuse; proved to implement the set;
+     - the word / bit loop of HandleRequires and CheckRequires (a general loop with early exit) : Requireness.bm_scan / handle_ids;
+     - native/thrift.c j2t_write_unset_fields : Requireness.native_decision (C, not Go) - check 1601, finding 1623;
+     - conv/j2t writeStringValue's filter of optional / default fields after HandleRequires let them through : folded into
+       native_decision for the portable engine - check 1602;
+     - thrift/idl.go makeDefaultValue (parser AST, interfaces) : Requireness.make_default_bytes - the harness's independent encoding of
+       every declared default must equal it (check 1601-1604, verdict 99 otherwise) and the engines must write it. *)
+
+(* ================================================================== the VALUE written for an unmet field *)
+(* makeDefaultValue stores exactly the encoding of the declared default as a value of the field's own type (byte, i16, i32, i64,
+   double, string, bool; enum-member and constant identifiers are integers) *)
+Theorem C16_default_bytes_are_encoding :
+  forall tc l v, lit_value tc l = Some v -> make_default_bytes tc l = Some (encode v).
+Proof. exact default_bytes_encode. Qed.
+Print Assumptions C16_default_bytes_are_encoding.
+
+(* WriteDefaultOrEmpty: the parsed IDL default when there is one, else the zero value (empty struct for structs) - as bytes *)
+Theorem C16_WriteDefaultOrEmpty_writes_default_or_zero :
+  forall p f v, default_or_zero p f = Some v -> write_default_or_empty p f = Some (encode v).
+Proof. exact write_default_or_empty_encode. Qed.
+Print Assumptions C16_WriteDefaultOrEmpty_writes_default_or_zero.
+
+(* what a handler appends for an unmet field it writes (under WriteRequireField / WriteDefaultField / WriteOptionalField, whichever
+   the rule selected): exactly that field of a struct holding default_or_zero - header with the field's own type, then the value *)
+Theorem C16_unmet_field_written_bytes :
+  forall p a f v, is_write a -> default_or_zero p f = Some v ->
+  unmet_field_bytes p a f = Some (type_of v :: enc_int 2 (f_id (v_f f)) ++ encode v) /\
+  (forall bs, unmet_field_bytes p a f = Some bs -> encode (VStruct [(f_id (v_f f), v)]) = bs ++ [0]).
+Proof. exact unmet_field_bytes_encode. Qed.
+Print Assumptions C16_unmet_field_written_bytes.
+
+(* which of the two: the declared default exactly when the rule answers AWriteDefault (default parsing enabled and one declared) *)
+Theorem C16_unmet_value_by_rule :
+  forall p w f,
+  (rule p w (v_f f) = AWriteDefault -> default_or_zero p f = match v_lit f with Some l => lit_value (type_code (v_ty f)) l | None => None end) /\
+  (rule p w (v_f f) = AWriteZero -> default_or_zero p f = zero_of (v_ty f)) /\
+  (is_write (rule p w (v_f f)) -> (rule p w (v_f f) = AWriteDefault <-> parsed_default p (v_f f) = true)).
+Proof. exact unmet_value_by_rule. Qed.
+Print Assumptions C16_unmet_value_by_rule.
+
+Theorem C16_unmet_value_exists :
+  forall p f, vfld_ok f = true -> ty_valid (v_ty f) = true -> exists v, default_or_zero p f = Some v.
+Proof. exact default_or_zero_total. Qed.
+Print Assumptions C16_unmet_value_exists.
+
+(* `2: i64 L = Color.BLUE` (BLUE = 3) under UseDefaultValue: eight bytes of the field's own type, not the enum's four *)
+Example ex_enum_default_on_i64 :
+  make_default_bytes T_I64 (DInt 3) = Some [0; 0; 0; 0; 0; 0; 0; 3] /\ lit_value T_I64 (DInt 3) = Some (VI64 3) /\
+  unmet_field_bytes {| p_opt_bitmap := false; p_use_default := true |} AWriteDefault
+    {| v_f := {| f_id := 2; f_req := 0; f_hasdef := true |}; v_ty := TScalar T_I64; v_lit := Some (DInt 3) |}
+  = Some [10; 0; 2; 0; 0; 0; 0; 0; 0; 0; 3].
+Proof. vm_compute. repeat split; reflexivity. Qed.
